@@ -384,38 +384,50 @@ def lax_result(doc, relaxed, ignore):
     return Lax(doc, relaxed, ignore).run()
 
 
-def expected_line(doc):
-    """(list of 4 expected results ('ok <dump>' | 'err'), rfc dump or None)"""
+# the five result columns of op `d`: options 0..3 set with json_set_options, and a context on which
+# json_set_options was never called (documented default: JSON_STRICT, UTF-8 validated = options 0)
+COLUMNS = [0, 1, 2, 3, 0]
+COLNAME = ["options=0", "options=1", "options=2", "options=3", "default context (json_set_options never called)"]
+
+
+def expected_for(doc, optlist):
+    """(expected results ('ok <dump>' | 'err') for the given option values, rfc dump or None)"""
+    cache = {}
     out = []
-    for o in range(4):
-        v = lax_result(doc, bool(o & 1), bool(o & 2))
-        out.append("err" if v is None else "ok " + v)
+    for o in optlist:
+        if o not in cache:
+            v = lax_result(doc, bool(o & 1), bool(o & 2))
+            cache[o] = "err" if v is None else "ok " + v
+        out.append(cache[o])
     return out, rfc_expect(doc)
 
 
-def judge(doc, impl_line):
+def judge(doc, impl_line, optlist=None, names=None):
     """compare the implementation's output line for `d <hex(doc)>` with the references.
     Returns None when fine, else (class, message)."""
+    optlist = COLUMNS if optlist is None else optlist
+    names = COLNAME if names is None else names
     parts = impl_line.split(" | ")
-    if len(parts) != 4:
+    if len(parts) != len(optlist):
         return ("shape", "unexpected output shape: " + impl_line[:200])
-    exp, rfc = expected_line(doc)
-    for o in range(4):
-        got = parts[o]
+    exp, rfc = expected_for(doc, optlist)
+    for k, o in enumerate(optlist):
+        got = parts[k]
+        nm = names[k]
         if not (got.startswith("ok ") or got.startswith("err ")) or "?" in got:
-            return ("malformed-result", "options=%d: %s" % (o, got[:200]))
+            return ("malformed-result", "%s: %s" % (nm, got[:200]))
         if got == "err none":
-            return ("null-without-message", "options=%d: json_parse returned NULL and json_strerror is NULL" % o)
+            return ("null-without-message", "%s: json_parse returned NULL and json_strerror is NULL" % nm)
         if rfc is not None and got != "ok " + rfc:
-            return ("rfc-document", "options=%d: RFC 8259 document inside the property's preconditions; "
-                    "reference value %s, implementation says %s" % (o, rfc[:200], got[:200]))
-        if exp[o] == "err":
+            return ("rfc-document", "%s: RFC 8259 document inside the property's preconditions; "
+                    "reference value %s, implementation says %s" % (nm, rfc[:200], got[:200]))
+        if exp[k] == "err":
             if got.startswith("ok "):
                 cls = "strict-accepts" if not (o & 1) else "relaxed-accepts"
-                return (cls, "options=%d: document outside the accepted language is accepted: %s" % (o, got[:200]))
-        elif got != exp[o]:
+                return (cls, "%s: document outside the accepted language is accepted: %s" % (nm, got[:200]))
+        elif got != exp[k]:
             cls = "value" if got.startswith("ok ") else ("relaxed-rejects" if (o & 1) else "rejects")
-            return (cls, "options=%d: expected %s, implementation says %s" % (o, exp[o][:200], got[:200]))
+            return (cls, "%s: expected %s, implementation says %s" % (nm, exp[k][:200], got[:200]))
     return None
 
 
@@ -424,13 +436,17 @@ def judge_seq(docs, impl_line):
     stands for itself, so each document is judged like a single one.  Returns None or
     (class, message) with the index of the offending document in the message."""
     groups = impl_line.split(" | ")
-    if len(groups) != 4:
+    if len(groups) != 5:
         return ("shape", "unexpected output shape: " + impl_line[:200])
     parts = [g.split(" ; ") for g in groups]
     if any(len(p) != len(docs) for p in parts):
         return ("shape", "unexpected output shape: " + impl_line[:200])
     for i, d in enumerate(docs):
-        j = judge(d, " | ".join(parts[o][i] for o in range(4)))
+        # fifth group: never-configured context for the first document, json_set_options(i % 4) before
+        # every later one
+        o5 = 0 if i == 0 else i % 4
+        n5 = COLNAME[4] if i == 0 else "options=%d set on a context first used without json_set_options" % o5
+        j = judge(d, " | ".join(parts[g][i] for g in range(5)), [0, 1, 2, 3, o5], COLNAME[:4] + [n5])
         if j is not None:
             return ("reuse:" + j[0] if i > 0 else j[0],
                     "document #%d of %d on one context (%r): %s" % (i + 1, len(docs), bytes(d)[:60], j[1]))
